@@ -56,6 +56,10 @@ func positionContext(l *Input, line, col int) (context string) {
 		c := l.Peek(0)
 		if c == 0 && l.Err() != nil || c == '\n' || c == '\r' {
 			break
+		} else if c >= 0xC0 {
+			if r, _ := l.PeekRune(0); r == '\u2028' || r == '\u2029' {
+				break // Position counts these as line breaks too
+			}
 		}
 		l.Move(1)
 	}
